@@ -74,7 +74,7 @@ static int tell_if(void *data, const char *key, void *value) {
         if (m) {
             if (write(mod->pubsub_fd[1], &m, sizeof(ps_priv_t *)) != sizeof(ps_priv_t *)) {
                 M_DEBUG("Failed to write message: %s\n", strerror(errno));
-                m_mem_unref(msg);
+                m_mem_unref(m);
             }
         }
     }
